@@ -73,3 +73,19 @@ def dyck : Nat → List Ev → Bool
   | _, .loadBlocks _ :: _ => false
 
 end MJ.Extends
+
+namespace MJ.Extends
+
+/-- capture events of a whole stream that may contain ONE `LoadBlocks` at any capture depth (inside
+set / filter blocks, crossed with them): `bal loaded d es` follows the depth relative to the entry of
+the stream, counting the discard capture of `LoadBlocks` as one more open entry; `none` when the
+stream pops below its entry or extends a second time -/
+def bal : Bool → Nat → List Ev → Option (Bool × Nat)
+  | l, d, [] => some (l, d)
+  | l, d, .beginCapture _ :: es => bal l (d + 1) es
+  | _, 0, .endCapture :: _ => none
+  | l, d + 1, .endCapture :: es => bal l d es
+  | true, _, .loadBlocks _ :: _ => none
+  | false, d, .loadBlocks _ :: es => bal true (d + 1) es
+
+end MJ.Extends
